@@ -506,6 +506,13 @@ struct C18 : Scenario {
 			if (!allow_sep && (c == '/' || c == '\\' || c == 0xff || c == '|')) c = 'q';
 			b.push_back(c);
 		}
+		if (rng.chance(1, 6)) {
+			// printf directives are printable: they survive any sanitiser and only matter if the text is ever used as a format
+			static const char *fmt[] = {"%c%c%c%c", "%c", "%lc%c", "%5$c%c", "%%%c", "%x%c%c", "%d%c", "%c%c%c%c%c%c%c%c", "%s"};
+			std::string f = fmt[rng.below(9)];
+			size_t at = rng.below(b.size() + 1);
+			b.insert(b.begin() + (long) at, f.begin(), f.end());
+		}
 		return b;
 	}
 	Plan generate(uint64_t seed, uint64_t run, const std::string &) override {
